@@ -20,6 +20,7 @@ import glob
 import json
 import os
 import random
+import re
 import shutil
 import threading
 import time
@@ -226,17 +227,22 @@ RECORD_TEXT = {
     "INPUT": "$INPUT ID TIME AMT WGT APGR DV\n",
     "DATA": "$DATA pheno.dta IGNORE=@\n",
     "SUBROUTINES": "$SUBROUTINE ADVAN1 TRANS2\n",
-    "PK": "$PK\nCL=THETA(1)*EXP(ETA(1))\nV=THETA(2)*EXP(ETA(2))\n{etas}S1=V\n",
-    "PRED": "$PRED\nCL=THETA(1)*EXP(ETA(1))\nV=THETA(2)*EXP(ETA(2))\n{etas}Y=CL+V*TIME+EPS(1){eps2}\n",
+    "PK": "$PK\nCL=THETA(1)*EXP(ETA(1))\nV=THETA(2)*EXP(ETA(2))\n{th3}{etas}S1=V\n",
+    "PRED": "$PRED\nCL=THETA(1)*EXP(ETA(1))\nV=THETA(2)*EXP(ETA(2))\n{th3}{etas}Y=CL+V*TIME+EPS(1){eps2}\n",
     "ERROR": "$ERROR\nW=F\nY=F+W*EPS(1){eps2}\n",
     "COVARIANCE": "$COVARIANCE\n",
     "TABLE": "$TABLE ID TIME DV NOPRINT ONEHEADER FILE=sdtab1\n",
+    # an option record over two lines: comment at the end of the first, continuation starting with options that
+    # estimation / table edits remove and re-append
+    "TABLE_ML": "$TABLE ID TIME DV ; key columns\n       NOPRINT ONEHEADER FILE=sdtab1\n",
     "UNKNOWN": "$FOO bar=1 (keep\n  this) ; as it is\n",
     "PRETEXT": ";; text before the first record\n\n",
 }
 MULTI = {
     "THETA": ("$THETA (0,0.005) (0,1.5)\n", ["$THETA (0,0.005) ; TVCL\n", "$THETA (0,1.5)\n"]),
     "THETA_INF": ("$THETA (0,0.005) (-INF,1.5,INF)\n", None),
+    # a (v)xn repeat followed by another theta in the same record (three thetas: the code records get TV3=THETA(3))
+    "THETA_REP": ("$THETA (0,0.5,10)x2 ; CL and V start from the same value\n       (-.99,.1)    ; third\n", None),
     "OMEGA": ("$OMEGA 0.03 0.04\n", ["$OMEGA 0.03\n", "$OMEGA 0.04 ; IVV\n"]),
     "SIGMA": ("$SIGMA 0.01\n", ["$SIGMA 0.01\n", "$SIGMA 0.02\n"]),
     "ESTIMATION": ("$ESTIMATION METHOD=1 INTERACTION MAXEVAL=99\n", ["$ESTIMATION METHOD=1 INTERACTION MAXEVAL=99\n", "$ESTIMATION METHOD=IMP NITER=5\n"]),
@@ -260,15 +266,20 @@ def render_layout(kinds, rng):
     if four["SIGMA"]:
         eps2 += "+EPS(3)+EPS(4)"
     etas = "E3=ETA(3)\nE4=ETA(4)\n" if four["OMEGA"] else ""
+    theta_variant = rng.random() if count.get("THETA", 0) == 1 else 1.0
+    th3 = "TV3=THETA(3)\n" if 0.12 <= theta_variant < 0.3 else ""
+    table_ml = rng.random() < 0.5
     for k in kinds:
         if k in MULTI:
             i = seen.get(k, 0)
             seen[k] = i + 1
             t = MULTI[k][0] if count[k] == 1 else (MULTI4[k][i] if four.get(k) else MULTI[k][1][i])
-            if k == "THETA" and count[k] == 1 and rng.random() < 0.12:
+            if k == "THETA" and theta_variant < 0.12:
                 t = MULTI["THETA_INF"][0]
+            elif k == "THETA" and th3:
+                t = MULTI["THETA_REP"][0]
         else:
-            t = RECORD_TEXT[k].replace("{eps2}", eps2).replace("{etas}", etas)
+            t = RECORD_TEXT["TABLE_ML" if k == "TABLE" and table_ml else k].replace("{eps2}", eps2).replace("{etas}", etas).replace("{th3}", th3)
         if k not in ("PRETEXT",):
             r = rng.random()
             if r < 0.15:
@@ -464,6 +475,11 @@ def run_model_case(arg):
             out.append(("violation", dict(rec, outcome="empty_edit_changed_code"),
                         f"update_source of the unmodified model changed the code: {diff}", None))
             continue
+        glued = _comment_changed(code, new_code)
+        if glued:
+            out.append(("violation", dict(rec, outcome="comment_changed"),
+                        f"{edit}: the comment {glued[0]!r} is not preserved exactly, the new code has {glued[1]!r}", None))
+            continue
         new = _records_of(m2)
         ids: dict = {}
 
@@ -474,6 +490,24 @@ def run_model_case(arg):
         changed = sorted({k for k, t in set(old) ^ set(new)})
         out.append(("trace", dict(rec, changed_kinds=changed), None, trace))
     return out
+
+
+_COMMENT = re.compile(r";[^\r\n]*")
+
+
+def _comment_changed(old_code, new_code):
+    """A comment of the old text that survives only as a proper prefix of a longer comment (something was glued onto
+    its line) or was cut short.  Comments that vanish together with a rewritten record are not judged here."""
+    oldc = [c.rstrip() for c in _COMMENT.findall(old_code)]
+    newc = [c.rstrip() for c in _COMMENT.findall(new_code)]
+    olds, news = set(oldc), set(newc)
+    for c in oldc:
+        if c in news or len(c) < 3:
+            continue
+        for n in newc:
+            if n not in olds and n != c and (n.startswith(c) or c.startswith(n)) and len(n) >= 3:
+                return (c, n)
+    return None
 
 
 def _multi_theta(m):
